@@ -22,6 +22,14 @@ pub struct EbrMirror {
     pub locals: BTreeMap<usize, LocalMirror>,
     /// participants that have been finalized (their records must be unlinked and freed later)
     pub finalized: Vec<usize>,
+    /// participants registered by the fallback path of a thread that is already running its
+    /// thread-local destructors
+    pub tls_locals: std::collections::BTreeSet<usize>,
+    /// how many entries `finalized` had when the final collection rounds began, and the clock then
+    pub finalized_at_janitor_start: usize,
+    pub janitor_clock0: u64,
+    /// an injected panic unwound out of a collection: what else was in that bag is lost
+    pub bag_lost_to_panic: bool,
     pub n_checks: u64,
     pub n_pinned_across_advance: u64,
     pub n_pin_retry: u64,
@@ -88,6 +96,25 @@ impl EbrMirror {
         }
     }
 
+    /// The final collection rounds begin: everything finalized so far has to be unlinked by their
+    /// first complete scan of the registry and freed a grace period later.
+    pub fn mark_janitor_start(&mut self) {
+        self.finalized_at_janitor_start = self.finalized.len();
+        self.janitor_clock0 = if self.enabled { peek_global(self.global_addr) } else { 0 };
+    }
+
+    /// records finalized before the final rounds began whose memory has not been freed
+    pub fn unfreed_records(&self) -> Vec<usize> {
+        self.finalized[..self.finalized_at_janitor_start.min(self.finalized.len())].iter().copied().filter(|&a| crate::alloc::in_arena(a) && !crate::alloc::is_freed(a)).collect()
+    }
+
+    pub fn clock_moved_since_janitor_start(&self) -> u64 {
+        if !self.enabled {
+            return 0;
+        }
+        peek_global(self.global_addr).wrapping_sub(self.janitor_clock0) & CLOCK_MASK
+    }
+
     pub fn pre_access(&mut self, _tid: usize, _site: u32, _addr: usize, _a: usize, _b: usize) {}
 
     pub fn take_soft(&mut self) -> Vec<(String, String)> {
@@ -121,6 +148,7 @@ impl EbrMirror {
                 self.n_registered += 1;
                 if sim().threads.get(tid).map(|t| t.exiting).unwrap_or(false) {
                     sim().probe("with_handle_fallback_registration");
+                    self.tls_locals.insert(a);
                 }
             }
             kind::FINALIZE => {
